@@ -312,7 +312,11 @@ def _esc(s, quote, ch: Chooser, charrefs=True, ascii_only=True):
         elif c == "<":
             out.append("&lt;")
         elif c == ">":
-            out.append("&gt;")
+            # '>' may travel raw in attribute values and in text (except right after ']]')
+            if ch.next(3) == 2 and not (len(out) >= 2 and out[-1] == "]" and out[-2] == "]"):
+                out.append(">")
+            else:
+                out.append("&gt;")
         elif quote and c == quote:
             out.append("&quot;" if c == '"' else "&apos;")
         elif quote and c in "\n\t":
